@@ -215,7 +215,58 @@ def r07_4(ctx, prog, crate):
     ctx.check(ok, "R07.4", ["caller", "poison-recovered"], "a poisoned threads mutex is not recovered with PoisonError::into_inner", lock[0].line())
 
 
+def r07_5(ctx, prog, crate):
+    """The wake-up goes to the caller of THIS broadcast: the handle a worker unparks is (a clone of) the `Thread` stored
+    in the shared block of the task it just received, and that field is initialised with thread::current() by the
+    constructor that the broadcasting thread itself calls.  A handle captured elsewhere (at spawn time, in a static)
+    would wake an earlier caller."""
+    from lib.facts import origins, nophi
+    w = worker(prog, crate)
+    ts = prog.body(POOL + "TaskShared::new", crate)
+    br = prog.body(POOL + "ThreadPool::broadcast", crate)
+    if not ctx.anchor("R07.5", "worker loop, TaskShared::new, ThreadPool::broadcast", sum(1 for x in (w, ts, br) if x), 3):
+        return
+    adt = prog.adt(POOL + "TaskShared", crate) or prog.adt("TaskShared", crate)
+    fields = []
+    if adt:
+        for v in adt.get("variants", []):
+            fields += [f.get("name") for f in v.get("fields", [])]
+    thread_fields = [f.get("name") for v in (adt or {}).get("variants", []) for f in v.get("fields", []) if f.get("ty", "").endswith("thread::Thread")]
+    if not ctx.check(len(thread_fields) == 1, "R07.5", ["TaskShared", "carries-the-callers-handle"],
+                     "the per-broadcast shared block has %d field(s) of type Thread (fields: %s): the worker cannot learn which thread called this broadcast" % (len(thread_fields), fields), ts.where(0)):
+        return
+    tf = thread_fields[0]
+    # constructor: field = thread::current(), on every path
+    aggs = [s for bi, si, s in ts.stmts() if s["k"] == "assign" and s["rv"]["k"] == "agg" and s["rv"]["ak"] == "adt" and "TaskShared" in s["rv"]["adt"]]
+    if ctx.check(len(aggs) == 1 and tf in aggs[0]["rv"].get("fields", []), "R07.5", ["TaskShared::new", "aggregate"], "no single TaskShared aggregate with field %s" % tf, ts.where(0)):
+        o = aggs[0]["rv"]["ops"][aggs[0]["rv"]["fields"].index(tf)]
+        og = origins(ts, o)
+        ctx.check(bool(og) and all(x[0] == "call" and x[1].callee == "std::thread::current" for x in og), "R07.5", ["TaskShared::new", "handle-is-current-thread"],
+                  "TaskShared.%s is not thread::current() of the constructing (= broadcasting) thread" % tf, ts.where(0))
+    # the constructor runs on the broadcasting thread: called directly by broadcast, which directly calls broadcast_task
+    ctx.check(any(c.callee == POOL + "TaskShared::new" for c in br.live_calls()) and any(c.callee == POOL + "ThreadPool::broadcast_task" for c in br.live_calls()),
+              "R07.5", ["broadcast", "constructs-then-waits-on-same-thread"], "broadcast does not itself build the shared block and call broadcast_task", br.where(0))
+    # worker: every unpark is applied to a handle that derives from the received task's field, and from nothing else
+    rc = [c for c in w.live_calls() if c.callee == "std::sync::mpsc::Receiver::recv"]
+    ups = [c for c in w.live_calls() if c.callee == "std::thread::Thread::unpark"]
+    if not ctx.check(len(ups) >= 1 and len(rc) == 1, "R07.5", ["worker", "unpark-sites"], "unpark sites: %d, recv sites: %d" % (len(ups), len(rc)), w.where(0)):
+        return
+    recv_args = {s.label() for a in rc[0].args for s in w.prov.op_src(a)}
+    clones = [x for x in w.live_calls() if x.callee.endswith("Thread as std::clone::Clone>::clone") and tf in field_of_arg(w, x)]
+    for c in ups:
+        srcs = w.prov.op_src(c.args[0])
+        from_task = any(s.kind == "call" and s.b == rc[0].bb for s in srcs)
+        og = origins(w, c.args[0])
+        # the handle is the field itself or a clone of it (the clone is needed: the block is freed once the count reaches 0)
+        through_field = tf in field_of_arg(w, c) or (bool(og) and all(o[0] == "call" and any(o[1].bb == x.bb for x in clones) for o in og))
+        foreign = sorted(s.label() for s in srcs if s.kind in ("upvar", "static", "param") and s.label() not in recv_args)
+        ctx.check(from_task and through_field and not foreign and nophi(srcs), "R07.5", ["worker", "unparks-the-received-tasks-caller"],
+                  "the unparked handle does not derive (only) from `%s` of the task just received: from-task=%s through-field=%s other sources=%s"
+                  % (tf, from_task, through_field, foreign), c.line())
+
+
 def run(ctx, prog, crate):
+    r07_5(ctx, prog, crate)
     r07_1(ctx, prog, crate)
     r07_2(ctx, prog, crate)
     r07_3(ctx, prog, crate)
